@@ -29,6 +29,10 @@ SPATIAL = ('cacgmm', 'cwmm', 'cbmm', 'gcacgmm', 'vmfcacgmm')
 
 def compare_models(model, m1, m2, data1, data2, shape, rt, mask=None):
     f1, f2 = M.fields(model, m1), M.fields(model, m2)
+    if model == 'cbmm':
+        lam = np.concatenate([np.ravel(m.complex_bingham.covariance_eigenvalues) for m in (m1, m2)])
+        if np.abs(lam).max() > 1e6:
+            return 'TRIVIAL: Bingham concentration > 1e6 (class scatter numerically rank deficient)'
     for name in f1:
         a, b = f1[name], f2[name]
         if name == 'weight':
@@ -88,9 +92,13 @@ def run_small(key):
     try:
         m2 = M.fit(model, data2, init, its)
     except Exception as e:  # noqa
+        if model == 'cbmm' and isinstance(e, AssertionError):
+            return trivial('cBMM guard: class scatter numerically rank deficient (eigenvalue < 0 by rounding)')
         return viol(f'{model}: fit(c*y) raised {e!r} although fit(y) succeeded (gains {gains.tolist()})')
     rt = 1e-5 if model == 'cbmm' else tol.TIGHT * 100
     bad = compare_models(model, m1, m2, data, data2, lead + (K, N), rt)
+    if bad and bad.startswith('TRIVIAL'):
+        return trivial(bad[9:])
     if bad:
         return viol(bad + f' (gains {gains.tolist()})')
     return ok(outcome=tol.digest(M.fields(model, m1)[sorted(M.fields(model, m1))[0]]), evals=2)
@@ -131,9 +139,13 @@ def run_options(key):
     try:
         m2 = M.fit(model, data2, init, p['iterations'], **opts)
     except Exception as e:  # noqa
+        if model == 'cbmm' and isinstance(e, AssertionError):
+            return trivial('cBMM guard: class scatter numerically rank deficient (eigenvalue < 0 by rounding)')
         return viol(f'{model}: fit(c*y) raised {e!r} although fit(y) succeeded')
     rt = 1e-5 if model == 'cbmm' else (5e-4 if c['single'] else tol.TIGHT * 1000)
     bad = compare_models(model, m1, m2, data, data2, lead + (K, N), rt, mask=c['mask'])
+    if bad and bad.startswith('TRIVIAL'):
+        return trivial(bad[9:])
     if bad:
         return viol(bad + f' (gains {gains[list(pos)].tolist()} at {list(pos)})')
     return ok(outcome=tol.digest(np.asarray(M.fields(model, m1)['weight'])), evals=2)
